@@ -29,6 +29,9 @@
 #ifndef POOL
 #define POOL 0
 #endif
+#ifndef MERGEEMPTY
+#define MERGEEMPTY 0		/* k > 0: the user merge function returns an EMPTY (non-NULL, length 0) value on its k-th call: legal, not a failure */
+#endif
 #ifndef MERGEFAIL
 #define MERGEFAIL 0		/* k > 0: the user merge function fails on its k-th call */
 #endif
@@ -132,10 +135,10 @@ mtbl_res mtbl_writer_add(struct mtbl_writer *w, const uint8_t *k, size_t kl, con
 		writer_refused = 1;
 		return mtbl_res_failure;
 	}
-	V_ASSUME(c->n < MAXCE && kl <= 1 && vl == 1);
+	V_ASSUME(c->n < MAXCE && kl <= 1 && (vl == 1 || (MERGEEMPTY && vl == 0)));
 	c->k[c->n][0] = (uint8_t)kl;
 	c->k[c->n][1] = kl ? k[0] : 0;
-	c->v[c->n] = v[0];
+	c->v[c->n] = vl ? v[0] : 0;
 	c->n++;
 	return mtbl_res_success;
 }
@@ -368,6 +371,7 @@ static void merge_sum(void *clos, const uint8_t *key, size_t len_key, const uint
 	if (MERGEFAIL && merge_calls == MERGEFAIL) { *mv = NULL; *ml = 0; return; }
 	uint8_t *m = malloc(1);
 	V_ASSUME(m);
+	if (MERGEEMPTY && merge_calls == MERGEEMPTY) { m[0] = 0; *mv = m; *ml = 0; return; }
 	m[0] = (uint8_t)(v0[0] + v1[0]);
 	*mv = m; *ml = 1;
 }
@@ -474,7 +478,8 @@ void h_sorter(void)
 				long key = A_key[i][0] ? 1 + A_key[i][1] : 0;
 				if (key == want) sum = (uint8_t)(sum + A_val[i]);
 			}
-			V_ASSERT(vl == 1 && v[0] == sum, "C06: value is not the fold of exactly the values added for that key");
+			if (!MERGEEMPTY)	/* with an empty intermediate result only keys, order and "no failure" are judged */
+				V_ASSERT(vl == 1 && v[0] == sum, "C06: value is not the fold of exactly the values added for that key");
 			prev = want;
 		}
 #endif
